@@ -18,8 +18,8 @@ from pathlib import Path
 
 sys.path.insert(0, str(Path(__file__).resolve().parent.parent))
 os.environ.setdefault("VOPY_VERIF", "1")
-if "/repo" not in sys.path:
-    sys.path.insert(0, "/repo")
+REPO = os.environ.get("VOPY_REPO", "/repo")  # override only to try the checks on a scratch worktree
+sys.path.insert(0, REPO)
 
 from harness import core, leanbuild  # noqa: E402
 
